@@ -115,6 +115,48 @@ def _job(part):
                 else:
                     n_ok += 1
             out.append(("ok", "derived families", "%d families" % n_ok))
+        elif part == "factory-select":
+            # Factory._get_solver_class, the function every Solver() / is_sat(solver_name=...) / Optimizer() call goes
+            # through: for solvers that declare a few logics, selected by name and by preference, the logic the solver
+            # is created with is one of its own logics, above the request and minimal among those
+            byname = dict((l.attrs["name"], l) for l in logics)
+            decl = {"rec": ["QF_UFLIRA", "QF_UFBV"], "lia": ["QF_LIA", "LIA"], "wide": ["QF_AUFBVLIRA", "QF_BV", "UFLIRA", "QF_UFLIRA"]}
+            classes = dict((n, AObj("probe.SolverClass", {"LOGICS": [byname[x] for x in ls], "__name__": n})) for n, ls in decl.items()
+                           if all(x in byname for x in ls))
+            fac = AObj("pysmt.factory.Factory", {"preferences": {"Solver": ["lia", "rec", "wide"]}, "environment": w.env})
+            gsc = it.getattr(fac, "_get_solver_class")
+            n_ok = 0
+            for t in logics + [None]:
+                for nm in [None] + sorted(classes):
+                    cands = [classes[nm]] if nm is not None else [classes[k] for k in sorted(classes)]
+                    tag = "%s|%s" % (nm or "by-preference", name(t) if t is not None else "no-logic")
+                    above_any = t is None or any(le(t, s) for c in cands for s in c.attrs["LOGICS"])
+                    try:
+                        r = it.call(gsc, [], {"solver_list": dict(classes), "solver_type": "Solver", "default_logic": byname["QF_UFLIRA"],
+                                              "name": nm, "logic": t})
+                    except AbsRaise as ex:
+                        if above_any and t is not None:
+                            out.append(("bad", "factory|%s|raises" % tag, "Factory._get_solver_class(name=%s, logic=%s) raises %s although a "
+                                        "declared logic is above the request" % (nm, name(t), ex.cls_name)))
+                        else:
+                            n_ok += 1
+                        continue
+                    cls_, lg = list(it.iterate(r))
+                    own = cls_.attrs["LOGICS"]
+                    cn = cls_.attrs["__name__"]
+                    if nm is not None and cls_ is not classes[nm]:
+                        out.append(("bad", "factory|%s|other-solver" % tag, "solver %s requested, %s selected" % (nm, cn)))
+                    elif not any(lg is s for s in own):
+                        out.append(("bad", "factory|%s|outside" % tag, "solver %s (declares %s) is created with logic %s, which is not one of its logics"
+                                    % (cn, [name(s) for s in own], name(lg) if isinstance(lg, AObj) else lg)))
+                    elif t is not None and not le(t, lg):
+                        out.append(("bad", "factory|%s|below" % tag, "request %s: solver %s is created with %s, which cannot express it" % (name(t), cn, name(lg))))
+                    elif t is not None and [s for s in own if s is not lg and le(t, s) and lt(s, lg)]:
+                        out.append(("bad", "factory|%s|not-minimal" % tag, "request %s: solver %s is created with %s although it declares a smaller logic above the request"
+                                    % (name(t), cn, name(lg))))
+                    else:
+                        n_ok += 1
+            out.append(("ok", part, "%d (solver, request) pairs" % n_ok))
         else:
             closer = G("get_closer_logic")
             which = {"closer-smtlib": smtlib_l, "closer-pysmt": pysmt_l, "closer-subset": pysmt_l[::3]}[part]
@@ -166,7 +208,7 @@ def _job(part):
     return res[0].detail
 
 
-PARTS = ["theory-order", "combine", "logic-order", "closer-smtlib", "closer-pysmt", "closer-subset", "families"]
+PARTS = ["theory-order", "combine", "logic-order", "closer-smtlib", "closer-pysmt", "closer-subset", "families", "factory-select"]
 
 
 def run(ctx):
@@ -184,5 +226,5 @@ def run(ctx):
             elif kind == "unsupported":
                 rs.unrec("%s: %s" % (key, detail))
             else:
-                ctx.finding(rs, key, detail, "pysmt/logics.py")
+                ctx.finding(rs, key, detail, "pysmt/factory.py" if key.startswith("factory|") else "pysmt/logics.py")
     ctx.floor(rs, 7)
